@@ -18,12 +18,13 @@ Theorem C04_e2e_request_headers_preserved :
 Proof. exact e2e_preserved. Qed.
 Print Assumptions C04_e2e_request_headers_preserved.
 
-(* Hop-by-hop headers removed — the part that holds of the code: a header of the table whose FIRST
-   value is non-empty, and every header named in ANY Connection line (all values of the Connection
-   header, all comma-separated tokens), is absent upstream; and nothing absent is invented. *)
-Theorem C04_hop_headers_removed_partial :
+(* Hop-by-hop headers removed, full clause: EVERY header of the hop-by-hop table (whatever its
+   values, an empty first value included) and every header named in ANY Connection line (all values
+   of the Connection header, all comma-separated tokens) is absent upstream; and nothing absent is
+   invented. (X-Forwarded-For is the one header the proxy writes itself: see C04_xff_appended.) *)
+Theorem C04_hop_headers_removed :
   forall h remote,
-  (forall k, In k gen_hop_headers -> hget h k <> [] -> hlookup (create_upstream_headers remote h) k = None) /\
+  (forall k, In k gen_hop_headers -> hlookup (create_upstream_headers remote h) k = None) /\
   (forall tok, In tok (all_conn_tokens h) -> canon_key tok <> K_XFF ->
                hlookup (create_upstream_headers remote h) (canon_key tok) = None) /\
   (forall k, k <> K_XFF -> hlookup h k = None -> hlookup (create_upstream_headers remote h) k = None).
@@ -33,7 +34,14 @@ Proof.
   - intros tok. exact (conn_listed_removed h remote tok).
   - intros k. exact (absent_stays_absent h remote k).
 Qed.
-Print Assumptions C04_hop_headers_removed_partial.
+Print Assumptions C04_hop_headers_removed.
+
+(* The same in the terms of the executable spec (is_hop_for = RFC hop-by-hop list or named in any
+   Connection line of this very header map): no such header reaches the backend. *)
+Theorem C04_hop_headers_removed_spec :
+  forall h remote k, is_hop_for h k = true -> k <> K_XFF -> hlookup (create_upstream_headers remote h) k = None.
+Proof. exact is_hop_for_removed. Qed.
+Print Assumptions C04_hop_headers_removed_spec.
 
 Example C04_hop_headers_removed_nonvacuous :
   hlookup (create_upstream_headers (bs "192.0.2.7:4711"%string)
@@ -49,13 +57,12 @@ Example C04_second_connection_line_nonvacuous :
   hlookup (create_upstream_headers (bs "192.0.2.7:4711"%string) wit_h2) (bs "X-Secret"%string) = None.
 Proof. exact second_connection_line_removed. Qed.
 
-(* ... and the full clause ("every hop-by-hop header") is FALSE of the code: a hop-by-hop header
-   whose first value is empty is forwarded with all its values (known finding F-C04-2). *)
-Theorem C04_hop_headers_removed_refuted :
-  exists h remote k, In k gen_hop_headers /\ hlookup h k <> None /\
-                     hlookup (create_upstream_headers remote h) k = hlookup h k.
-Proof. exact hop_empty_first_value_refuted. Qed.
-Print Assumptions C04_hop_headers_removed_refuted.
+(* the witness of the former finding F-C04-2: a hop-by-hop header whose FIRST value is empty is removed *)
+Example C04_hop_empty_first_value_nonvacuous :
+  In (bs "Proxy-Authorization"%string) gen_hop_headers /\
+  hlookup wit_h1 (bs "Proxy-Authorization"%string) = Some [[]; bs "Basic abc"%string] /\
+  hlookup (create_upstream_headers (bs "192.0.2.7:4711"%string) wit_h1) (bs "Proxy-Authorization"%string) = None.
+Proof. exact hop_empty_first_value_removed. Qed.
 
 (* The hop-by-hop table regenerated from reverseproxy.go contains every RFC 7230 / RFC 2616 hop-by-hop
    header (and the de-facto ones): dropping an entry from hopHeaders breaks this obligation. *)
